@@ -138,6 +138,12 @@ def oracle(ck, extended):
         x = gen.float_tensor(ck.nprng, (rng.randint(1, 2), rng.randint(1, 2), H, W), rng.choice([1.0, 1e3]))
         o, ri = (2, -1) if rng.random() < 0.7 else rng.choice(LAYOUTS)
         rt.guard(ck, oracle_pr, ck, b, s, J, x, o, ri)
+    # covering cases (independent of the seed): pyramids much deeper than the image is large, so that several levels have
+    # 1x1 bands and every level works on the padded low-pass
+    for (H, W, J) in [(2, 2, 3), (4, 4, 4), (3, 5, 4), (8, 8, 5), (6, 2, 3), (16, 16, 6)] + ([] if q else [(5, 5, 5), (2, 9, 6), (32, 8, 7)]):
+        b, s = rng.choice(pairs)
+        x = gen.float_tensor(ck.nprng, (1, 2, H, W))
+        rt.guard(ck, oracle_pr, ck, b, s, J, x, 2, -1)
     for _ in range(3 if q else 20):
         b, s = rng.choice(pairs); J = rng.randint(1, 3)
         shapes = [(1, rng.randint(1, 2), rng.randint(4, 24), rng.randint(4, 24)) for _ in range(rng.randint(2, 3))]
